@@ -1,1 +1,7 @@
 // hook file for ntp-proto/src/nts/mod.rs: declares the per-property harness modules
+#[cfg(any(verif_all, verif_c28))]
+#[path = "/verif/harness/ntp-proto/c28.rs"]
+mod c28;
+#[cfg(any(verif_all, verif_c29))]
+#[path = "/verif/harness/ntp-proto/c29.rs"]
+mod c29;
